@@ -1,5 +1,6 @@
 import Lean.Data.Json
 import Nutree.Model.Basic
+import Nutree.Model.Ops
 open Lean Nutree
 namespace Driver
 
@@ -84,6 +85,8 @@ def optIntOfJson : Json → E (Option Int)
 /-- Driver state. -/
 structure St where
   pool : Array Atom := #[]
+  trees : Array Tree := #[]
+  next : Nat := 1
 
 def field (j : Json) (k : String) : E Json := j.getObjVal? k
 def fieldD (j : Json) (k : String) (d : Json) : Json := (j.getObjVal? k).toOption.getD d
